@@ -12,6 +12,8 @@ Violations(line) ==
   \cup R("not-exactly-the-store", o.ok /\ ~o.exact)
      \* it fails as a whole rather than returning a partial set
   \cup R("partial-set", ~o.ok /\ o.partial)
+     \* the same store name under another type is another store (also on a re-used trust store instance)
+  \cup R("store-of-another-type", ~o.crossOK)
 Init == l = 1
 Next == /\ l <= Len(Trace)
         /\ LET v == Violations(Trace[l]) IN
